@@ -12,7 +12,7 @@
 (* Environment: VERIF_FAM = v3 | v2, VERIF_MODE = char | token,            *)
 (* VERIF_DEPTH = 1 | 2, VERIF_SEEDS = all | base.                          *)
 (***************************************************************************)
-EXTENDS Vector, TLC, IOUtils
+EXTENDS Decoder, TLC, IOUtils
 
 VARIABLES s, d, ph, def
 vars == <<s, d, ph, def>>
@@ -113,6 +113,10 @@ CanonicalFixedPoint ==
 \* v2: an accepted string is byte-identical to its canonical encoding (Appendix A's lemma)
 V2AcceptsIffCanonical ==
   (ph = "ok" /\ Fam = "v2") => \A L \in {"B", "T", "E"} : Acc(L) => Canonical(Fam, L, s) = s
+\* the implementation-shaped decoder (token loop, names sets, deferred error, completeness
+\* checks) refines the property layer on every explored string
+DecoderRefinesVector ==
+  ph = "ok" => \A L \in {"B", "T", "E"} : DecoderRefinesVectorAt(Fam, L, s, def[L])
 \* the projection of an accepted string is accepted one level down
 ProjectionAccepted ==
   ph = "ok" => /\ Acc("E") => Accepts(Fam, "T", Project(Fam, "T", s))
